@@ -327,6 +327,9 @@ func Encrypt(pub *PublicKey, data []byte, random io.Reader, mode int) ([]byte, e
 }
 
 func Decrypt(priv *PrivateKey, data []byte, mode int) ([]byte, error) {
+	if len(data) < 1+64+32 {
+		return nil, errors.New("Decrypt: ciphertext too short")
+	}
 	switch mode {
 	case C1C3C2:
 		data = data[1:]
